@@ -259,13 +259,16 @@ func (w *world) tx(s txSpec, chainIDHash []byte) *types.Tx {
 	return tx
 }
 
-// build a block on parent with these txs (all must execute).
-func (p *producer) build(parent *types.Block, specs []txSpec) *types.Block {
+// build a block on parent with these txs (all must execute). parentRoot is the state root execution of the
+// parent really reaches (differs from the parent's header for a parent built with badRoot). badRoot: the header
+// of the new block claims a state root that its execution does not reach (ValidatePost fails on it). Returns
+// the block and the root its execution reaches.
+func (p *producer) build(parent *types.Block, parentRoot []byte, specs []txSpec, badRoot bool) (*types.Block, []byte) {
 	p.ts += 1000
 	p.built++
 	bi := types.NewBlockHeaderInfoFromPrevBlock(parent, p.ts, p.bv)
 	sdb := p.core.VerifC06SDB()
-	bs := state.NewBlockState(sdb.OpenNewStateDB(parent.GetHeader().GetBlocksRootHash()), state.SetPrevBlockHash(parent.BlockHash()))
+	bs := state.NewBlockState(sdb.OpenNewStateDB(parentRoot), state.SetPrevBlockHash(parent.BlockHash()))
 	bs.SetGasPrice(system.GetGasPrice())
 	bs.Receipts().SetHardFork(config.AllEnabledHardforkConfig, bi.No)
 	var txs []*types.Tx
@@ -284,8 +287,15 @@ func (p *producer) build(parent *types.Block, specs []txSpec) *types.Block {
 	if err := bs.Commit(); err != nil {
 		panic(err)
 	}
-	blk := types.NewBlock(bi, bs.GetRoot(), bs.Receipts(), txs, nil, nil)
+	root := cp(bs.GetRoot())
+	hdrRoot := root
+	if badRoot {
+		hdrRoot = cp(root)
+		hdrRoot[0] ^= 0xa5
+		hdrRoot[len(hdrRoot)-1] ^= 0x5a
+	}
+	blk := types.NewBlock(bi, hdrRoot, bs.Receipts(), txs, nil, nil)
 	blk.BlockHash()
-	return blk
+	return blk, root
 }
 
